@@ -21,6 +21,8 @@ enum Sym {
     HThen,
     HAndThen,
     Opt(usize), // options
+    /// an operand with a top-level lazy boolean operator (`x || y`)
+    Bin,
 }
 
 // (token text, operand arity: 0, 1, 2 (two exprs), 9 = optional single type, 94 = optional four types, wrapper-capable, member operand)
@@ -52,6 +54,7 @@ const OPTS: [&str; 4] = ["futures_crate_path(::futures)", "custom_joiner(jn)", "
 fn text(s: Sym) -> &'static str {
     match s {
         Sym::X => "x",
+        Sym::Bin => "x || y",
         Sym::Blk => "{x}",
         Sym::Let => "let n =",
         Sym::LetTup => "let (a, b) =",
@@ -76,7 +79,7 @@ fn alphabet(kind: &str) -> Vec<Sym> {
     }
     a.extend([Sym::Tilde, Sym::Wrap, Sym::Unwrap, Sym::Comma, Sym::HMap, Sym::HThen]);
     if kind == "full" {
-        a.extend([Sym::HAndThen, Sym::LetTup]);
+        a.extend([Sym::HAndThen, Sym::LetTup, Sym::Bin]);
     }
     if kind == "opts" {
         a = vec![Sym::X, Sym::Op(0), Sym::Comma, Sym::HThen];
@@ -97,7 +100,7 @@ enum Verdict {
 }
 
 fn is_operand(s: Sym) -> bool {
-    matches!(s, Sym::X | Sym::Blk | Sym::Mem)
+    matches!(s, Sym::X | Sym::Blk | Sym::Mem | Sym::Bin)
 }
 fn is_handler(s: Sym) -> bool {
     matches!(s, Sym::HMap | Sym::HThen | Sym::HAndThen)
@@ -205,7 +208,7 @@ fn recognise(s: &[Sym]) -> Verdict {
                     last_block = false;
                     // `<<<` takes no operand: next must be an action, ',' or end
                     if pos < n && is_operand(s[pos]) {
-                        return Verdict::Unsure;
+                        return Verdict::Invalid("E9 operand that follows an operand-less operator without a `,`");
                     }
                 }
                 Sym::Op(i) => {
@@ -232,7 +235,10 @@ fn recognise(s: &[Sym]) -> Verdict {
                     match arity {
                         0 => {
                             last_block = false;
-                            if pos < n && (is_operand(s[pos]) || matches!(s[pos], Sym::Let | Sym::LetTup)) {
+                            if pos < n && is_operand(s[pos]) {
+                                return Verdict::Invalid("E9 operand that follows an operand-less operator without a `,`");
+                            }
+                            if pos < n && matches!(s[pos], Sym::Let | Sym::LetTup) {
                                 return Verdict::Unsure;
                             }
                         }
